@@ -34,11 +34,11 @@ ENTRY(h_sasl2_response, Sasl2::Response, 1, 0, 1, ARR("response", "zz"), ARR("",
 ENTRY(h_sasl2_failure, Sasl2::Failure, 3, 0, 1, ARR("failure", "text", "not-authorized", "aborted", "bad-auth", "malformed-request", "zz"),
       ARR("", NS_SASL2, NS_SASL, "x:y"), ARR("zz"), ARR("en"))
 ENTRY(h_sasl2_abort, Sasl2::Abort, 2, 0, 1, ARR("abort", "text", "zz"), ARR("", NS_SASL2, NS_SASL, "x:y"), ARR("zz"), ARR("en"))
-ENTRY(h_sasl2_continue, Sasl2::Continue, 3, 2, 1, ARR("continue", "additional-data", "tasks", "task", "text", "zz"), ARR("", NS_SASL2, NS_SASL, "x:y"), ARR("zz"), ARR("="))
+ENTRY(h_sasl2_continue, Sasl2::Continue, 2, 2, 1, ARR("continue", "additional-data", "tasks", "task", "text", "zz"), ARR("", NS_SASL2, NS_SASL, "x:y"), ARR("zz"), ARR("="))
 // no <token xmlns='urn:xmpp:fast:0'/> child: FastToken carries a QDateTime (Qt's date-time parser, outside)
-ENTRY(h_sasl2_success, Sasl2::Success, 3, 2, 1, ARR("success", "additional-data", "authorization-identifier", "bound", "resumed", "failed", "enabled", "zz"),
+ENTRY(h_sasl2_success, Sasl2::Success, 2, 1, 1, ARR("success", "additional-data", "authorization-identifier", "bound", "resumed", "failed", "enabled", "zz"),
       ARR("", NS_SASL2, NS_BIND2, NS_SM, NS_FAST, "x:y"), ARR("h", "previd", "resume", "id", "max", "zz"), ARR("true"))
-ENTRY(h_sasl2_feature, Sasl2::StreamFeature, 3, 2, 1, ARR("authentication", "mechanism", "inline", "bind", "fast", "sm", "zz"),
+ENTRY(h_sasl2_feature, Sasl2::StreamFeature, 2, 2, 1, ARR("authentication", "mechanism", "inline", "bind", "fast", "sm", "zz"),
       ARR("", NS_SASL2, NS_BIND2, NS_FAST, NS_SM, "x:y"), ARR("tls-0rtt", "zz"), ARR("true", "false"))
 // no <user-agent/> child: UserAgent carries a QUuid (Qt, outside)
 ENTRY(h_sasl2_authenticate, Sasl2::Authenticate, 3, 2, 1, ARR("authenticate", "initial-response", "bind", "resume", "request-token", "fast", "tag", "inactive", "enable", "zz"),
@@ -50,3 +50,7 @@ ENTRY(h_bind2_bound, Bind2Bound, 3, 2, 1, ARR("bound", "failed", "enabled", "ite
 ENTRY(h_fast_feature, FastFeature, 3, 0, 1, ARR("fast", "mechanism", "zz"), ARR("", NS_FAST, NS_SASL2, "x:y"), ARR("tls-0rtt", "zz"), ARR("true", "false"))
 ENTRY(h_fast_token_request, FastTokenRequest, 1, 0, 1, ARR("request-token", "zz"), ARR("", NS_FAST, NS_SASL2, "x:y"), ARR("mechanism", "zz"), ARR("HT-SHA-256"))
 ENTRY(h_fast_request, FastRequest, 1, 0, 1, ARR("fast", "zz"), ARR("", NS_FAST, NS_SASL2, "x:y"), ARR("count", "invalidate", "zz"), ARR("true", "false"))
+
+// first half only (safety + well-formed output) on the larger tree, for the parsers whose two-pass run is expensive
+ENTRY(h_sasl2_success_safe, Sasl2::Success, 3, 2, 0, ARR("success", "additional-data", "authorization-identifier", "bound", "resumed", "failed", "enabled", "zz"),
+      ARR("", NS_SASL2, NS_BIND2, NS_SM, NS_FAST, "x:y"), ARR("h", "previd", "resume", "id", "max", "zz"), ARR("true"))
